@@ -128,6 +128,30 @@ fn exhaustive(ctx: &mut Ctx, maxlen: usize) {
     }
 }
 
+/// A oneway request that *upgrades* the connection: the acknowledgement is a reply like any other and is
+/// not sent. Every symbol (or none) in front of an Upgrade request flagged oneway / more+oneway.
+fn oneway_upgrade(ctx: &mut Ctx) {
+    let (svc, _p) = t_service();
+    let mut firsts: Vec<Option<Sym>> = vec![None];
+    firsts.extend(alphabet().into_iter().filter(|s| !s.closes()).map(Some));
+    for first in firsts {
+        for flag in [Flag::Oneway, Flag::MoreOneway] {
+            let mut syms: Vec<Sym> = first.into_iter().collect();
+            syms.push(Sym { kind: Kind::Upgrade, flag });
+            for depth in 1..=syms.len() {
+                for style in 0..4u8 {
+                    ctx.case(Some(hash64(&(&syms, depth, style, "oneway-upgrade"))));
+                    ctx.class("mem:oneway-upgrade");
+                    if let Err(f) = pt::guard(|| c01::run_mem(&svc, &syms, depth, style).map(|_| ())) {
+                        ctx.violation(&f.key, &f.what, "c04-mem", c01::case_json(&syms, depth, style, "mem"));
+                        return;
+                    }
+                }
+            }
+        }
+    }
+}
+
 fn oneway_seq_strategy(lo: usize, hi: usize) -> impl Strategy<Value = (Vec<Sym>, usize, u8)> {
     // like C01's generator but every third position (at least one) is forced oneway
     (c01::seq_strategy(alphabet(), lo, hi), prop::collection::vec(0u8..3, hi))
@@ -500,6 +524,7 @@ pub fn run(args: &Args) -> ! {
     }
     let maxlen = ctx.tier.pick(2, 3);
     exhaustive(&mut ctx, maxlen);
+    oneway_upgrade(&mut ctx);
     ctx.bump_sample_cap(4);
     let (m, s) = ctx.tier.pick((30_000, 1_000), (300_000, 10_000));
     random_server(&mut ctx, m, s);
